@@ -109,9 +109,15 @@ def gen_case(r):
         if "key" in first and first["key"]:
             base = first["key"]
             whole = r.choice([({"m": 1}, "{m: 1}"), ({}, "{}"), ("txt", "txt"), (None, "null"), ({"k": {"n": 2}}, "{k: {n: 2}}")])
-            overrides += [{"key": base + ".x", "value": 1, "text": "1"},
-                          {"key": base, "value": whole[0], "text": whole[1]},
-                          {"key": base + ".y", "value": 2, "text": "2"}]
+            if r.random() < 0.5:
+                overrides += [{"key": base + ".x", "value": 1, "text": "1"},
+                              {"key": base, "value": whole[0], "text": whole[1]},
+                              {"key": base + ".y", "value": 2, "text": "2"}]
+            else:
+                # ... or the same key given twice with a key below it in between: each at its own position
+                overrides += [{"key": base, "value": {"x": 1}, "text": "{x: 1}"},
+                              {"key": base + ".y", "value": 2, "text": "2"},
+                              {"key": base, "value": whole[0], "text": whole[1]}]
     # a mapping reachable under two keys of one file (YAML anchor + alias, as in the user guide)
     share = []
     if r.random() < 0.25:
